@@ -100,6 +100,10 @@ __CPROVER_ensures(__CPROVER_return_value == 1 && OWN_DEPTH(self) == 0)          
 ENS_C02(self->m_worker == NULL ==> (g_runs == __CPROVER_old(g_runs) + 1 && g_run_msg == lmsg && g_run_on == &self->_base._base._base && g_run_own_depth == 1 && g_posts == __CPROVER_old(g_posts)))
 ENS_C02(self->m_worker == NULL ==> (g_run_type == lmsg->m_type && QSTRING_SAME(g_run_text, lmsg->m_message) && g_run_text.id == lmsg->m_message.id && g_run_line == lmsg->m_context.line && SAME_CSTR_TEXT(lmsg->m_context.file, g_run_file)))
 ENS_C04(self->m_worker == NULL ==> (g_runs == __CPROVER_old(g_runs) + 1 && g_run_msg == lmsg && g_posts == __CPROVER_old(g_posts) && PENDING(self) == __CPROVER_old(PENDING(self))))
+/* ... and that synchronous fall-back runs WITH THE HANDLER MUTEX HELD: resetOwnThread() holds the same mutex from the moment it sees pending == 0
+ * until the worker is cleared, so under A-mutex a fall-back delivery cannot overlap a stop, and the test "is there a worker?" cannot be
+ * separated from the delivery it decides (lock discipline the C04 reduction relies on; no interleaving is explored) */
+ENS_C04(self->m_worker == NULL ==> g_run_own_depth == 1)
 /* worker present: the logging call runs no handler; it counts the message as pending and posts ONE LogEvent holding a copy, default priority */
 ENS_C03(self->m_worker != NULL ==> (g_runs == __CPROVER_old(g_runs) && g_posts == __CPROVER_old(g_posts) + 1 && g_post_receiver == &self->m_worker->_base \
         && g_post_priority == E_Qt_EventPriority_NormalEventPriority && PENDING(self) == __CPROVER_old(PENDING(self)) + 1))
